@@ -8,7 +8,10 @@ from vf.core import Part, Violation, call
 from vf.props import common
 
 PROPERTY = "C16"
-RULE = ("Part 'models': Hypothesis generates validated model DAG specs over every class of the JSON class map (AtLeast with "
+RULE = ("Parts 'shapes*': EXHAUSTIVE enumeration of every single threshold node (AtLeast with value -2..3 and sign +1/-1/default, AtMost "
+        "-2..2, All, Any over a boolean and an integer leaf with negative lower bound, explicit/generated id) alone and inside "
+        "every connective (Imply condition/consequence, Not, double Not, XNor, Xor, All, Any, AtMost, AtLeast). "
+        "Part 'models': Hypothesis generates validated model DAG specs over every class of the JSON class map (AtLeast with "
         "explicit/default sign, AtMost, All, Any, Xor, ExactlyOne, XNor, Imply with str/variable/compound consequence, Not), "
         "nesting <=3/4, integer leaves, explicit and generated ids; path to_json -> json.dumps -> json.loads -> from_json. "
         "Oracle: same leaf ids with same bounds; identical reference arithmetic value of original and reloaded object on every "
@@ -186,8 +189,13 @@ def model_strat(draw, tier, profile):
                                   profile=profile))
 
 
+def shapes(slice_i, n):
+    for spec in S.small_shapes(slice_i, n):
+        yield {"model": spec, "points": None}
+
+
 def parts(tier):
-    return [
+    return [Part("shapes%d" % i, enumerate_cases=(lambda t, i=i: shapes(i, 4)), check=check_model, time_quick=120.0) for i in range(4)] + [
         Part("models", strategy=lambda t: model_strat(t, "small"), check=check_model, quick=(5, 350), thorough=(10, 2500), fuzz=(2, 20000)),
         Part("models_large", strategy=lambda t: model_strat(t, "large"), check=check_model, quick=(1, 300), thorough=(2, 2000)),
         Part("configurators", strategy=lambda t: S.configurator_spec().map(lambda s: {"model": s}), check=check_cfg,
